@@ -1,6 +1,1139 @@
-//! C05 — monitor not built yet.
-use crate::core::Ctx;
+//! C05 — wire fidelity: parse and serialize are mutually inverse, canonical input re-serialises to
+//! identical bytes, announced lengths equal written lengths (also after API mutation), and the
+//! public accessors report the field values that are on the wire.
+//!
+//! Inputs come from a reference encoder (`gen_*` below, fields chosen independently by the
+//! harness), from API-built / API-mutated objects, and from the repository's fixtures.
+
+use std::collections::BTreeMap;
+use std::io::Read;
+
+use pgp::composed::{
+    ArmorOptions, Deserializable, DetachedSignature, MessageBuilder, SignedPublicKey, SignedSecretKey,
+};
+use pgp::crypto::hash::HashAlgorithm;
+use pgp::crypto::sym::SymmetricKeyAlgorithm;
+use pgp::packet::{
+    Packet, PacketParser, PacketTrait, Subpacket, SubpacketData,
+};
+use pgp::ser::Serialize;
+use pgp::types::{KeyDetails, Password, S2kParams, StringToKey};
+use rand::{Rng, RngCore};
+use rand_chacha::ChaCha8Rng;
+use serde_json::json;
+
+use crate::core::{describe_case, hexs, Ctx};
+use crate::rfc;
+use crate::rfc::frame::{deframe, frame, LenForm};
+use crate::rfc::key::{RefProtection, RefPub, RefSecret};
+use crate::rfc::sig::{encode_subpacket, RefOps, RefSig};
+use crate::rfc::sym::RefS2k;
+use crate::zoo::{self, Alg, Spec};
+
+type Acc = BTreeMap<&'static str, String>;
+
+struct Gen {
+    tag: u8,
+    body: Vec<u8>,
+    /// every field is encoded canonically (minimal lengths, canonical MPIs, known layout)
+    canonical: bool,
+    label: String,
+    /// accessor name -> value the generator put on the wire
+    expect: Acc,
+}
+
+fn rnd_bytes(rng: &mut ChaCha8Rng, n: usize) -> Vec<u8> {
+    let mut v = vec![0u8; n];
+    rng.fill_bytes(&mut v);
+    v
+}
+
+/// canonical MPI with exactly `bits` bits (bits >= 1)
+fn rnd_mpi(rng: &mut ChaCha8Rng, bits: usize) -> Vec<u8> {
+    let bytes = bits.div_ceil(8).max(1);
+    let mut v = rnd_bytes(rng, bytes);
+    let top = bits % 8;
+    if top != 0 {
+        v[0] &= (1u8 << top) - 1;
+        v[0] |= 1 << (top - 1);
+    } else {
+        v[0] |= 0x80;
+    }
+    rfc::mpi(&v)
+}
+
+/// one-octet id: mostly interesting values, sometimes anything
+fn any_id(rng: &mut ChaCha8Rng, common: &[u8], sweep: u64) -> u8 {
+    if sweep < 256 {
+        sweep as u8
+    } else if rng.gen_bool(0.8) {
+        common[rng.gen_range(0..common.len())]
+    } else {
+        rng.gen()
+    }
+}
+
+fn len_class(n: usize) -> &'static str {
+    if n < 192 {
+        "<192"
+    } else if n < 8384 {
+        "<8384"
+    } else {
+        ">=8384"
+    }
+}
+
+const SYMS: [u8; 11] = [1, 2, 3, 4, 7, 8, 9, 10, 11, 12, 13];
+const HASHS: [u8; 9] = [1, 2, 3, 8, 9, 10, 11, 12, 14];
+const PKALGS: [u8; 12] = [1, 2, 3, 16, 17, 18, 19, 22, 25, 26, 27, 28];
+
+fn gen_s2k(rng: &mut ChaCha8Rng, sweep: u64) -> (Vec<u8>, bool) {
+    let kind = any_id(rng, &[0, 1, 3, 4], if sweep < 256 { sweep } else { 999 });
+    match kind {
+        0 => (vec![0, any_id(rng, &HASHS, 999)], true),
+        1 => {
+            let mut o = vec![1, any_id(rng, &HASHS, 999)];
+            o.extend(rnd_bytes(rng, 8));
+            (o, true)
+        }
+        3 => {
+            let mut o = vec![3, any_id(rng, &HASHS, 999)];
+            o.extend(rnd_bytes(rng, 8));
+            o.push(rng.gen());
+            (o, true)
+        }
+        4 => {
+            let mut o = vec![4];
+            o.extend(rnd_bytes(rng, 16));
+            o.extend([rng.gen_range(1..4), rng.gen_range(1..4), rng.gen_range(3..20)]);
+            (o, true)
+        }
+        t => {
+            // unknown / reserved / private S2K: swallows the rest of its container
+            let mut o = vec![t];
+            let n = rng.gen_range(0..12);
+            o.extend(rnd_bytes(rng, n));
+            (o, false)
+        }
+    }
+}
+
+fn gen_pkesk(rng: &mut ChaCha8Rng, i: u64) -> Gen {
+    let v6 = i % 2 == 1;
+    let alg = any_id(rng, &[1, 2, 16, 18, 25, 26], i / 2);
+    let mut fields = vec![];
+    let mut known = true;
+    match alg {
+        1 | 2 | 3 => fields.extend(rnd_mpi(rng, [2048usize, 2047, 1, 9, 4096][(i % 5) as usize])),
+        16 => {
+            fields.extend(rnd_mpi(rng, 1024));
+            fields.extend(rnd_mpi(rng, 1023));
+        }
+        18 => {
+            let mut p = vec![0x04u8];
+            p.extend(rnd_bytes(rng, 64));
+            fields.extend(rfc::mpi(&p));
+            let wl = [40usize, 48, 8, 0, 255][(i % 5) as usize];
+            fields.push(wl as u8);
+            fields.extend(rnd_bytes(rng, wl));
+        }
+        25 | 26 => {
+            fields.extend(rnd_bytes(rng, if alg == 25 { 32 } else { 56 }));
+            let wl = [24usize, 40, 8][(i % 3) as usize];
+            if v6 {
+                fields.push(wl as u8);
+            } else {
+                fields.push(wl as u8 + 1);
+                fields.push(SYMS[(i % 11) as usize]);
+            }
+            fields.extend(rnd_bytes(rng, wl));
+        }
+        _ => {
+            known = false;
+            let n = rng.gen_range(0..40);
+            fields.extend(rnd_bytes(rng, n));
+        }
+    }
+    let mut body;
+    let mut expect = Acc::new();
+    if v6 {
+        body = vec![6u8];
+        match i % 3 {
+            0 => body.push(0), // anonymous
+            1 => {
+                body.push(33);
+                body.push(6);
+                body.extend(rnd_bytes(rng, 32));
+            }
+            _ => {
+                body.push(21);
+                body.push(4);
+                body.extend(rnd_bytes(rng, 20));
+            }
+        }
+        expect.insert("version", "6".into());
+    } else {
+        body = vec![3u8];
+        body.extend(rnd_bytes(rng, 8));
+        expect.insert("version", "3".into());
+    }
+    body.push(alg);
+    expect.insert("pk_alg", alg.to_string());
+    body.extend(fields);
+    Gen { tag: 1, body, canonical: known, label: format!("pkesk-v{}-alg{}", if v6 { 6 } else { 3 }, if known { alg.to_string() } else { "unknown".into() }), expect }
+}
+
+fn gen_skesk(rng: &mut ChaCha8Rng, i: u64) -> Gen {
+    let ver = [4u8, 6, 5, 4, 6][(i % 5) as usize];
+    let sym = any_id(rng, &SYMS, i / 5);
+    let aead = any_id(rng, &[1, 2, 3], 999);
+    let (s2k, s2k_known) = gen_s2k(rng, if i % 7 == 0 { i / 7 } else { 999 });
+    let mut expect = Acc::new();
+    expect.insert("version", ver.to_string());
+    let mut body = vec![ver];
+    let mut canonical = s2k_known;
+    match ver {
+        4 => {
+            body.push(sym);
+            body.extend(&s2k);
+            if i % 2 == 0 {
+                let n = rng.gen_range(1..40);
+                body.extend(rnd_bytes(rng, n));
+            }
+            expect.insert("sym", sym.to_string());
+        }
+        5 => {
+            body.push(sym);
+            body.push(aead);
+            body.extend(&s2k);
+            let ivl = rfc::sym::aead_nonce_len(aead).unwrap_or(0);
+            body.extend(rnd_bytes(rng, ivl));
+            let n = rng.gen_range(16..60);
+            body.extend(rnd_bytes(rng, n));
+            expect.insert("sym", sym.to_string());
+            if ivl == 0 {
+                canonical = false;
+            }
+        }
+        _ => {
+            let ivl = rfc::sym::aead_nonce_len(aead).unwrap_or(0);
+            body.push((3 + s2k.len() + ivl) as u8);
+            body.push(sym);
+            body.push(aead);
+            body.push(s2k.len() as u8);
+            body.extend(&s2k);
+            body.extend(rnd_bytes(rng, ivl));
+            let n = rng.gen_range(16..60);
+            body.extend(rnd_bytes(rng, n));
+            expect.insert("sym", sym.to_string());
+            if ivl == 0 {
+                canonical = false;
+            }
+        }
+    }
+    Gen { tag: 3, body, canonical, label: format!("skesk-v{ver}"), expect }
+}
+
+fn gen_subpacket_area(rng: &mut ChaCha8Rng, i: u64, max_total: usize, canonical: &mut bool) -> Vec<u8> {
+    let mut a = vec![];
+    let n = [0usize, 1, 2, 5, 12][(i % 5) as usize];
+    for j in 0..n {
+        let critical = rng.gen_bool(0.15);
+        let choice = rng.gen_range(0..22);
+        let (typ, body): (u8, Vec<u8>) = match choice {
+            0 => (2, rnd_bytes(rng, 4)),
+            1 => (3, rnd_bytes(rng, 4)),
+            2 => (9, rnd_bytes(rng, 4)),
+            3 => (16, rnd_bytes(rng, 8)),
+            4 => (11, (0..rng.gen_range(0..6)).map(|_| SYMS[rng.gen_range(0..11)]).collect()),
+            5 => (21, (0..rng.gen_range(0..6)).map(|_| HASHS[rng.gen_range(0..9)]).collect()),
+            6 => (22, (0..rng.gen_range(0..4)).map(|_| rng.gen_range(0..4)).collect()),
+            7 => (23, vec![0x80]),
+            8 => {
+                let n = [1usize, 2, 4][rng.gen_range(0..3)];
+                (27, rnd_bytes(rng, n))
+            }
+            9 => (30, vec![rng.gen_range(0..16)]),
+            10 => (25, vec![rng.gen_range(0..2)]),
+            11 => (7, vec![rng.gen_range(0..2)]),
+            12 => (4, vec![rng.gen_range(0..2)]),
+            13 => (5, vec![rng.gen(), rng.gen()]),
+            14 => {
+                let mut b = vec![4u8];
+                b.extend(rnd_bytes(rng, 20));
+                (33, b)
+            }
+            15 => {
+                let mut b = vec![6u8];
+                b.extend(rnd_bytes(rng, 32));
+                (33, b)
+            }
+            16 => {
+                // notation: flags(4) name len(2) value len(2) name value
+                let nl = rng.gen_range(1..20usize);
+                let vl = [0usize, 5, 150, 200, 16400][(i as usize + j) % 5].min(max_total.saturating_sub(a.len() + 40));
+                let mut b = vec![if rng.gen() { 0x80 } else { 0 }, 0, 0, 0];
+                b.extend((nl as u16).to_be_bytes());
+                b.extend((vl as u16).to_be_bytes());
+                b.extend((0..nl).map(|k| b'a' + (k % 26) as u8));
+                b.extend(rnd_bytes(rng, vl));
+                (20, b)
+            }
+            17 => (26, b"https://example.org/p".to_vec()),
+            18 => (28, b"user@example.org".to_vec()),
+            19 => (29, {
+                let mut b = vec![rng.gen_range(0..4)];
+                b.extend(b"because");
+                b
+            }),
+            20 => {
+                let n = rng.gen_range(0..30);
+                (rng.gen_range(40..100), rnd_bytes(rng, n)) // unknown types
+            }
+            _ => {
+                let n = rng.gen_range(0..30);
+                (rng.gen_range(100..111), rnd_bytes(rng, n)) // private
+            }
+        };
+        let lo = if rng.gen_bool(0.1) {
+            *canonical = false;
+            if body.len() + 1 >= 192 { 5 } else { [2u8, 5][rng.gen_range(0..2)].max(5) }
+        } else {
+            0
+        };
+        let enc = encode_subpacket(typ, critical, &body, if lo == 2 { 5 } else { lo });
+        if a.len() + enc.len() > max_total {
+            break;
+        }
+        a.extend(enc);
+    }
+    a
+}
+
+fn gen_sig_value(rng: &mut ChaCha8Rng, alg: u8, i: u64) -> (Vec<u8>, bool) {
+    match alg {
+        1 | 3 => (rnd_mpi(rng, [2048usize, 2041, 1][(i % 3) as usize]), true),
+        17 | 19 | 22 => {
+            let mut v = rnd_mpi(rng, [256usize, 255, 249, 8][(i % 4) as usize]);
+            v.extend(rnd_mpi(rng, [256usize, 250, 256, 1][(i % 4) as usize]));
+            (v, true)
+        }
+        27 => (rnd_bytes(rng, 64), true),
+        28 => (rnd_bytes(rng, 114), true),
+        _ => {
+            let n = rng.gen_range(0..40);
+            (rnd_bytes(rng, n), false)
+        }
+    }
+}
+
+fn gen_signature(rng: &mut ChaCha8Rng, i: u64) -> Gen {
+    let version = [4u8, 6, 4, 6, 3][(i % 5) as usize];
+    let typ = any_id(rng, &[0, 1, 0x10, 0x13, 0x18, 0x19, 0x1F, 0x20, 0x28, 0x30, 0x40, 0x50], if i % 3 == 0 { i / 3 } else { 999 });
+    let pub_alg = any_id(rng, &[1, 17, 19, 22, 27, 28], if i % 3 == 1 { i / 3 } else { 999 });
+    let hash_alg = any_id(rng, &HASHS, if i % 3 == 2 { i / 3 } else { 999 });
+    let mut canonical = true;
+    let (sig_data, known) = gen_sig_value(rng, pub_alg, i);
+    canonical &= known;
+    let max_area = if version == 4 { 60000 } else { 100000 };
+    let hashed = if version >= 4 { gen_subpacket_area(rng, i, max_area, &mut canonical) } else { vec![] };
+    let unhashed = if version >= 4 { gen_subpacket_area(rng, i / 5, 4000, &mut canonical) } else { vec![] };
+    let salt = if version == 6 { rnd_bytes(rng, rfc::salt_len(hash_alg).unwrap_or([16usize, 0, 33][(i % 3) as usize])) } else { vec![] };
+    let mut issuer = [0u8; 8];
+    rng.fill_bytes(&mut issuer);
+    let rs = RefSig {
+        version,
+        typ,
+        pub_alg,
+        hash_alg,
+        created: rng.gen(),
+        issuer,
+        hashed,
+        unhashed,
+        left16: [rng.gen(), rng.gen()],
+        salt,
+        sig_data,
+        off_hashed: 0,
+        off_unhashed: 0,
+        off_left16: 0,
+        off_salt: 0,
+        off_sig: 0,
+    };
+    let mut expect = Acc::new();
+    expect.insert("version", version.to_string());
+    expect.insert("typ", typ.to_string());
+    expect.insert("pk_alg", pub_alg.to_string());
+    expect.insert("hash_alg", hash_alg.to_string());
+    expect.insert("left16", hex::encode(rs.left16));
+    let body = rs.encode();
+    Gen { tag: 2, body, canonical, label: format!("sig-v{version}-{}", if known { "known-alg" } else { "unknown-alg" }), expect }
+}
+
+fn gen_ops(rng: &mut ChaCha8Rng, i: u64) -> Gen {
+    let v6 = i % 2 == 1;
+    let typ = any_id(rng, &[0, 1], if i % 3 == 0 { i / 3 } else { 999 });
+    let hash = any_id(rng, &HASHS, if i % 3 == 1 { i / 3 } else { 999 });
+    let alg = any_id(rng, &PKALGS, if i % 3 == 2 { i / 3 } else { 999 });
+    let ops = RefOps {
+        version: if v6 { 6 } else { 3 },
+        typ,
+        hash_alg: hash,
+        pub_alg: alg,
+        salt: if v6 { rnd_bytes(rng, rfc::salt_len(hash).unwrap_or(16)) } else { vec![] },
+        issuer: rnd_bytes(rng, if v6 { 32 } else { 8 }),
+        last: [0u8, 1, 1, 0][(i % 4) as usize],
+    };
+    let mut expect = Acc::new();
+    expect.insert("version", ops.version.to_string());
+    expect.insert("typ", typ.to_string());
+    expect.insert("hash_alg", hash.to_string());
+    expect.insert("pk_alg", alg.to_string());
+    expect.insert("last", ops.last.to_string());
+    Gen { tag: 4, body: ops.encode(), canonical: true, label: format!("ops-v{}", ops.version), expect }
+}
+
+/// public material for algorithm `alg` with harness-chosen values (structurally valid)
+fn gen_pub_material(rng: &mut ChaCha8Rng, alg: u8, i: u64) -> (Vec<u8>, bool) {
+    use rfc::key::*;
+    let oid_mpi = |oid: &[u8], point: Vec<u8>| {
+        let mut m = vec![oid.len() as u8];
+        m.extend(oid);
+        m.extend(rfc::mpi(&point));
+        m
+    };
+    match alg {
+        1 | 2 | 3 => {
+            let mut m = rnd_mpi(rng, [2048usize, 2047, 3072, 1025][(i % 4) as usize]);
+            let l = m.len() - 1;
+            m[l] |= 1;
+            m.extend(rfc::mpi(&[1, 0, 1]));
+            (m, true)
+        }
+        16 => {
+            let mut m = vec![];
+            for b in [1024usize, 3, 1020] {
+                m.extend(rnd_mpi(rng, b));
+            }
+            (m, true)
+        }
+        17 => {
+            let mut m = vec![];
+            for b in [1024usize, 160, 1023, 1019] {
+                m.extend(rnd_mpi(rng, b));
+            }
+            (m, true)
+        }
+        22 => {
+            let mut p = vec![0x40u8];
+            p.extend(rnd_bytes(rng, 32));
+            (oid_mpi(OID_ED25519, p), true)
+        }
+        18 => {
+            let mut p = vec![0x40u8];
+            p.extend(rnd_bytes(rng, 32));
+            let mut m = oid_mpi(OID_CV25519, p);
+            m.extend([3, 1, [8u8, 9, 10][(i % 3) as usize], [7u8, 8, 9][(i % 3) as usize]]);
+            (m, true)
+        }
+        25 | 27 => (rnd_bytes(rng, 32), true),
+        26 => (rnd_bytes(rng, 56), true),
+        28 => (rnd_bytes(rng, 57), true),
+        _ => {
+            let n = rng.gen_range(0..60);
+            (rnd_bytes(rng, n), false)
+        }
+    }
+}
+
+fn gen_secret_material(rng: &mut ChaCha8Rng, alg: u8) -> Vec<u8> {
+    match alg {
+        1 | 2 | 3 => {
+            let mut m = vec![];
+            for b in [2046usize, 1024, 1023, 1020] {
+                m.extend(rnd_mpi(rng, b));
+            }
+            m
+        }
+        16 | 17 => rnd_mpi(rng, 159),
+        18 | 19 | 22 => rnd_mpi(rng, 253),
+        25 | 27 => rnd_bytes(rng, 32),
+        26 => rnd_bytes(rng, 56),
+        28 => rnd_bytes(rng, 57),
+        _ => rnd_bytes(rng, 20),
+    }
+}
+
+fn gen_key(rng: &mut ChaCha8Rng, i: u64, real: &[(RefPub, Vec<u8>)]) -> Gen {
+    let secret = i % 2 == 1;
+    let sub = i % 4 >= 2;
+    let tag = match (secret, sub) {
+        (false, false) => 6,
+        (false, true) => 14,
+        (true, false) => 5,
+        (true, true) => 7,
+    };
+    // half of the keys are re-dressed real keys (valid curve points etc.), half synthetic
+    let (mut rp, material): (RefPub, Vec<u8>) = if i % 3 != 0 && !real.is_empty() {
+        real[(i as usize / 3) % real.len()].clone()
+    } else {
+        let alg = any_id(rng, &[1, 16, 17, 18, 22, 25, 26, 27, 28], if i % 9 == 0 { i / 9 } else { 999 });
+        let version = if matches!(alg, 18 | 22 | 16 | 17) { 4 } else { [4u8, 6, 4, 6, 3][(i % 5) as usize] };
+        let version = if version == 3 && !matches!(alg, 1 | 2 | 3) { 4 } else { version };
+        let (m, _) = gen_pub_material(rng, alg, i);
+        let sm = gen_secret_material(rng, alg);
+        (RefPub { version, created: 0, v3_expiry_days: 0, alg, material: m }, sm)
+    };
+    rp.created = rng.gen();
+    rp.v3_expiry_days = rng.gen_range(0..1000);
+    let known_alg = PKALGS.contains(&rp.alg);
+    let mut expect = Acc::new();
+    expect.insert("version", rp.version.to_string());
+    expect.insert("pk_alg", rp.alg.to_string());
+    expect.insert("created", rp.created.to_string());
+    if !secret {
+        return Gen { tag, body: rp.encode(), canonical: known_alg, label: format!("key-pub-v{}-alg{}", rp.version, if known_alg { rp.alg.to_string() } else { "unknown".into() }), expect };
+    }
+    // secret: choose the S2K usage octet from the whole range
+    let usage = any_id(rng, &[0, 253, 254, 255, 7, 9], if i % 5 == 0 { i / 5 % 256 } else { 999 });
+    let cipher = SYMS[(i % 11) as usize];
+    let s2k = match i % 4 {
+        0 => RefS2k::Simple { hash: 8 },
+        1 => RefS2k::Salted { hash: 10, salt: [7; 8] },
+        2 => RefS2k::Iterated { hash: 8, salt: [9; 8], count: (i % 256) as u8 },
+        _ => RefS2k::Argon2 { salt: [3; 16], t: 1, p: 1, m: 6 },
+    };
+    let prot = match usage {
+        0 => RefProtection::None,
+        253 => RefProtection::Aead { cipher: [7u8, 8, 9][(i % 3) as usize], aead: [1u8, 2, 3][(i / 3 % 3) as usize], s2k, nonce: rnd_bytes(rng, [16usize, 15, 12][(i / 3 % 3) as usize]) },
+        254 => RefProtection::Cfb { cipher, s2k, iv: rnd_bytes(rng, rfc::sym::block_size(cipher).unwrap()) },
+        255 => RefProtection::MalleableCfb { cipher, s2k, iv: rnd_bytes(rng, rfc::sym::block_size(cipher).unwrap()) },
+        c => match rfc::sym::block_size(c) {
+            Some(bs) => RefProtection::LegacyCipher { cipher: c, iv: rnd_bytes(rng, bs) },
+            None => RefProtection::LegacyCipher { cipher: c, iv: vec![] },
+        },
+    };
+    let data = if usage == 0 {
+        let mut d = material.clone();
+        if rp.version != 6 {
+            d.extend(rfc::sum16(&material).to_be_bytes());
+        }
+        d
+    } else {
+        let n = material.len() + 20;
+        rnd_bytes(rng, n)
+    };
+    expect.insert("usage", usage.to_string());
+    let canonical = known_alg && (usage == 0 || usage >= 253 || rfc::sym::block_size(usage).is_some());
+    let rs = RefSecret { public: rp.clone(), protection: prot, data };
+    Gen { tag, body: rs.encode(), canonical, label: format!("key-sec-v{}-u{}", rp.version, match usage { 0 => "0".to_string(), 253..=255 => usage.to_string(), _ => "legacy".into() }), expect }
+}
+
+fn gen_misc(rng: &mut ChaCha8Rng, i: u64) -> Gen {
+    let mut expect = Acc::new();
+    let sizes = [0usize, 1, 100, 191, 192, 193, 8383, 8384, 8385, 20000];
+    let n = sizes[(i / 11 % 10) as usize];
+    match i % 11 {
+        0 => {
+            // literal
+            let mode = any_id(rng, &[b'b', b't', b'u', b'm'], if i % 22 == 0 { i / 22 } else { 999 });
+            let nl = [0usize, 1, 8, 255][(i / 11 % 4) as usize];
+            let name: Vec<u8> = (0..nl).map(|k| b'a' + (k % 26) as u8).collect();
+            let mut body = vec![mode, nl as u8];
+            body.extend(&name);
+            let date: u32 = rng.gen();
+            body.extend(date.to_be_bytes());
+            body.extend(rnd_bytes(rng, n));
+            expect.insert("mode", mode.to_string());
+            expect.insert("name", hex::encode(&name));
+            expect.insert("data_len", n.to_string());
+            Gen { tag: 11, body, canonical: true, label: "literal".into(), expect }
+        }
+        1 => {
+            let alg = any_id(rng, &[0, 1, 2, 3], if i % 22 == 1 { i / 22 } else { 999 });
+            let mut body = vec![alg];
+            body.extend(rnd_bytes(rng, n));
+            Gen { tag: 8, body, canonical: true, label: "compressed".into(), expect }
+        }
+        2 => Gen { tag: 9, body: rnd_bytes(rng, n), canonical: true, label: "sed".into(), expect },
+        3 => {
+            let mut body = vec![1u8];
+            body.extend(rnd_bytes(rng, n));
+            expect.insert("version", "1".into());
+            Gen { tag: 18, body, canonical: true, label: "seipd-v1".into(), expect }
+        }
+        4 => {
+            let sym = any_id(rng, &[7, 8, 9], if i % 33 == 4 { i / 33 } else { 999 });
+            let aead = any_id(rng, &[1, 2, 3], if i % 33 == 15 { i / 33 } else { 999 });
+            let chunk = any_id(rng, &[0, 6, 16], if i % 33 == 26 { i / 33 } else { 999 });
+            let mut body = vec![2u8, sym, aead, chunk];
+            body.extend(rnd_bytes(rng, 32));
+            body.extend(rnd_bytes(rng, n));
+            expect.insert("version", "2".into());
+            Gen { tag: 18, body, canonical: true, label: "seipd-v2".into(), expect }
+        }
+        5 => {
+            let sym = any_id(rng, &[7, 8, 9], 999);
+            let aead = any_id(rng, &[1, 2], 999);
+            let chunk = any_id(rng, &[0, 6, 16], 999);
+            let mut body = vec![1u8, sym, aead, chunk];
+            body.extend(rnd_bytes(rng, rfc::sym::aead_nonce_len(aead).unwrap_or(16)));
+            body.extend(rnd_bytes(rng, n));
+            Gen { tag: 20, body, canonical: true, label: "gnupg-aead".into(), expect }
+        }
+        6 => Gen { tag: 19, body: rnd_bytes(rng, 20), canonical: true, label: "mdc".into(), expect },
+        7 => Gen { tag: 10, body: b"PGP".to_vec(), canonical: true, label: "marker".into(), expect },
+        8 => Gen { tag: 12, body: rnd_bytes(rng, n.min(300)), canonical: true, label: "trust".into(), expect },
+        9 => {
+            let body: Vec<u8> = if i % 2 == 0 { (0..n.min(9000)).map(|k| b'A' + (k % 26) as u8).collect() } else { rnd_bytes(rng, n.min(9000)) };
+            expect.insert("data_len", body.len().to_string());
+            Gen { tag: 13, body, canonical: true, label: "userid".into(), expect }
+        }
+        _ => {
+            if i % 2 == 0 {
+                Gen { tag: 21, body: rnd_bytes(rng, n), canonical: true, label: "padding".into(), expect }
+            } else {
+                // user attribute: subpacket length, type, data
+                let typ = any_id(rng, &[1, 2, 100], 999);
+                let mut data = vec![];
+                if typ == 1 {
+                    // image header: len 16 LE, version 1, format 1, 12 zero
+                    data.extend([0x10, 0x00, 0x01, 0x01]);
+                    data.extend([0u8; 12]);
+                }
+                data.extend(rnd_bytes(rng, n.min(20000)));
+                let len = data.len() + 1;
+                let mut body = vec![];
+                let nonmin = i % 6 == 1;
+                if len < 192 && !nonmin {
+                    body.push(len as u8);
+                } else if len < 16320 && !nonmin {
+                    let v = len - 192;
+                    body.push((v >> 8) as u8 + 192);
+                    body.push(v as u8);
+                } else {
+                    body.push(255);
+                    body.extend((len as u32).to_be_bytes());
+                }
+                body.push(typ);
+                body.extend(data);
+                Gen { tag: 17, body, canonical: !nonmin, label: "userattr".into(), expect }
+            }
+        }
+    }
+}
+
+fn accessors(p: &Packet) -> Acc {
+    let mut a = Acc::new();
+    fn key<K: KeyDetails>(a: &mut Acc, k: &K) {
+        a.insert("version", u8::from(k.version()).to_string());
+        a.insert("pk_alg", u8::from(k.algorithm()).to_string());
+        a.insert("created", k.created_at().as_secs().to_string());
+    }
+    match p {
+        Packet::PublicKey(k) => key(&mut a, k),
+        Packet::PublicSubkey(k) => key(&mut a, k),
+        Packet::SecretKey(k) => {
+            key(&mut a, k);
+            a.insert("usage", k.secret_params().string_to_key_id().to_string());
+        }
+        Packet::SecretSubkey(k) => {
+            key(&mut a, k);
+            a.insert("usage", k.secret_params().string_to_key_id().to_string());
+        }
+        Packet::Signature(s) => {
+            a.insert("version", u8::from(s.version()).to_string());
+            if let Some(c) = s.config() {
+                a.insert("typ", u8::from(c.typ).to_string());
+                a.insert("pk_alg", u8::from(c.pub_alg).to_string());
+                a.insert("hash_alg", u8::from(c.hash_alg).to_string());
+            }
+            if let Some(l) = s.signed_hash_value() {
+                a.insert("left16", hex::encode(l));
+            }
+        }
+        Packet::OnePassSignature(o) => {
+            a.insert("version", o.version().to_string());
+            a.insert("typ", u8::from(o.typ()).to_string());
+            a.insert("hash_alg", u8::from(o.hash_algorithm()).to_string());
+            a.insert("pk_alg", u8::from(o.public_key_algorithm()).to_string());
+            a.insert("last", if o.is_nested() { "0".into() } else { "1".into() });
+        }
+        Packet::PublicKeyEncryptedSessionKey(k) => {
+            a.insert("version", u8::from(k.version()).to_string());
+            if let Ok(alg) = k.algorithm() {
+                a.insert("pk_alg", u8::from(alg).to_string());
+            }
+        }
+        Packet::SymKeyEncryptedSessionKey(k) => {
+            a.insert("version", u8::from(k.version()).to_string());
+            if let Some(s) = k.sym_algorithm() {
+                a.insert("sym", u8::from(s).to_string());
+            }
+        }
+        Packet::SymEncryptedProtectedData(d) => {
+            a.insert("version", d.version().to_string());
+        }
+        Packet::LiteralData(l) => {
+            a.insert("name", hex::encode(l.file_name()));
+            a.insert("data_len", l.data().len().to_string());
+        }
+        Packet::UserId(u) => {
+            a.insert("data_len", u.id().len().to_string());
+        }
+        _ => {}
+    }
+    a
+}
+
+/// The generic oracle on one framed packet.
+fn judge(ctx: &mut Ctx, g: &Gen, form: &LenForm, framing_canonical: bool) {
+    let Some(wire) = frame(g.tag, &g.body, form) else { return };
+    let label = &g.label;
+    let replay = json!({"label": label, "tag": g.tag, "form": format!("{form:?}"), "wire": hexs(&wire)});
+    describe_case(&format!("ref:{label}"));
+    let parsed = ctx.guarded("C05/ref", || replay.clone(), || PacketParser::new(&wire[..]).collect::<Vec<_>>());
+    ctx.eval();
+    let Some(parsed) = parsed else { return };
+    if parsed.len() != 1 || parsed[0].is_err() {
+        ctx.tally(&format!("rejected.{label}"), 1);
+        return;
+    }
+    let p = parsed.into_iter().next().unwrap().unwrap();
+    ctx.tally(&format!("accepted.{label}"), 1);
+    ctx.cover(&(label, g.body.first().copied(), len_class(g.body.len()), g.canonical, format!("{form:?}")));
+    ctx.seen("labels", label.clone());
+    ctx.seen("length_classes", len_class(g.body.len()));
+    packet_checks(ctx, &p, Some((&wire, g.canonical && framing_canonical, &g.body)), label, &replay);
+    // (d) accessors
+    let acc = accessors(&p);
+    for (k, v) in &g.expect {
+        if let Some(got) = acc.get(k) {
+            // SEIPD: data_len etc not all present
+            if got != v {
+                ctx.violation(
+                    format!("C05/accessor-mismatch/{label}/{k}"),
+                    format!("accessor {k} reports {got} but the wire carries {v}"),
+                    replay.clone(),
+                );
+            }
+        }
+    }
+}
+
+/// (a) re-parse equality, (b) canonical => identical bytes, (c) length truthfulness
+fn packet_checks(ctx: &mut Ctx, p: &Packet, wire: Option<(&[u8], bool, &[u8])>, label: &str, replay: &serde_json::Value) {
+    let r = ctx.guarded("C05/serialise", || replay.clone(), || {
+        let mut out = vec![];
+        let res = p.to_writer(&mut out);
+        (res.map_err(|e| e.to_string()), out, p.write_len())
+    });
+    ctx.eval();
+    let Some((res, out, wl)) = r else { return };
+    if let Err(e) = res {
+        ctx.violation(format!("C05/accepted-but-not-serialisable/{label}"), e, replay.clone());
+        return;
+    }
+    if wl != out.len() {
+        ctx.violation(
+            format!("C05/write_len-mismatch/{label}"),
+            format!("write_len() (with header) = {wl} but {} bytes were written", out.len()),
+            replay.clone(),
+        );
+    }
+    // header announces the body length that follows
+    match deframe(&out) {
+        Ok(d) if d.len() == 1 && d[0].encoded_len == out.len() => {}
+        Ok(_) | Err(_) => {
+            if !out.is_empty() && (out[0] & 0x43) != 0x03 && (out[0] & 0xC0 == 0xC0 || out[0] & 3 != 3) {
+                ctx.violation(format!("C05/written-header-length-wrong/{label}"), "the written packet does not deframe to exactly one packet", json!({"base": replay, "out": hexs(&out)}));
+            }
+        }
+    }
+    // (a)
+    let again: Vec<_> = match ctx.guarded("C05/reparse", || replay.clone(), || PacketParser::new(&out[..]).collect::<Vec<_>>()) {
+        Some(a) => a,
+        None => return,
+    };
+    if again.len() != 1 || again[0].is_err() {
+        ctx.violation(
+            format!("C05/own-output-rejected/{label}"),
+            format!("re-serialised packet does not parse: {:?}", again.first().map(|r| r.as_ref().err().map(|e| e.to_string()))),
+            json!({"base": replay, "out": hexs(&out)}),
+        );
+        return;
+    }
+    let p2 = again.into_iter().next().unwrap().unwrap();
+    // serialise once more: must be a fixed point
+    let mut out2 = vec![];
+    let _ = p2.to_writer(&mut out2);
+    if out2 != out {
+        ctx.violation(format!("C05/reserialise-not-idempotent/{label}"), "serialize(parse(serialize(P))) differs from serialize(P)", json!({"base": replay, "out": hexs(&out), "out2": hexs(&out2)}));
+    }
+    if let Some((w, canonical, body)) = wire {
+        if canonical {
+            if &p2 != p {
+                ctx.violation(format!("C05/reparse-differs/{label}"), "parse(serialize(P)) != P for a canonically encoded packet", json!({"base": replay, "out": hexs(&out)}));
+            }
+            if out != w {
+                ctx.violation(format!("C05/canonical-bytes-changed/{label}"), "canonically encoded packet is re-serialised to different bytes", json!({"base": replay, "out": hexs(&out)}));
+            }
+        } else {
+            // value round trip on the normalised form
+            let mut b1 = vec![];
+            let mut b2 = vec![];
+            let _ = body_of(p, &mut b1);
+            let _ = body_of(&p2, &mut b2);
+            if b1 != b2 {
+                ctx.violation(format!("C05/reparse-body-differs/{label}"), "body changes across a serialise/parse cycle", replay.clone());
+            }
+            if b1 == body && out != w {
+                ctx.tally("noncanonical.framing_normalised", 1);
+            }
+        }
+    } else if &p2 != p {
+        // objects without reference wire (API built): headers may legitimately be re-derived,
+        // compare bodies and tags
+        let mut b1 = vec![];
+        let mut b2 = vec![];
+        let _ = body_of(p, &mut b1);
+        let _ = body_of(&p2, &mut b2);
+        if b1 != b2 || p.tag() != p2.tag() {
+            ctx.violation(format!("C05/reparse-differs/{label}"), "parse(serialize(P)) differs from P", replay.clone());
+        }
+    }
+}
+
+fn body_of(p: &Packet, out: &mut Vec<u8>) -> pgp::errors::Result<()> {
+    macro_rules! b {
+        ($x:expr) => {{
+            $x.to_writer(out)?;
+            if $x.write_len() != out.len() {
+                return Err(pgp::errors::Error::from(format!("body write_len {} != written {}", $x.write_len(), out.len())));
+            }
+            Ok(())
+        }};
+    }
+    match p {
+        Packet::CompressedData(x) => b!(x),
+        Packet::PublicKey(x) => b!(x),
+        Packet::PublicSubkey(x) => b!(x),
+        Packet::SecretKey(x) => b!(x),
+        Packet::SecretSubkey(x) => b!(x),
+        Packet::LiteralData(x) => b!(x),
+        Packet::Marker(x) => b!(x),
+        Packet::ModDetectionCode(x) => b!(x),
+        Packet::OnePassSignature(x) => b!(x),
+        Packet::PublicKeyEncryptedSessionKey(x) => b!(x),
+        Packet::Signature(x) => b!(x),
+        Packet::SymEncryptedData(x) => b!(x),
+        Packet::SymEncryptedProtectedData(x) => b!(x),
+        Packet::SymKeyEncryptedSessionKey(x) => b!(x),
+        Packet::Trust(x) => b!(x),
+        Packet::UserAttribute(x) => b!(x),
+        Packet::UserId(x) => b!(x),
+        Packet::Padding(x) => b!(x),
+        Packet::GnupgAeadData(x) => b!(x),
+    }
+}
+
+fn composite_len<T: Serialize>(ctx: &mut Ctx, what: &str, t: &T, replay: &serde_json::Value) -> Option<Vec<u8>> {
+    let r = ctx.guarded("C05/composite", || replay.clone(), || (t.to_bytes().map_err(|e| e.to_string()), t.write_len()));
+    ctx.eval();
+    let (b, wl) = r?;
+    match b {
+        Ok(b) => {
+            if b.len() != wl {
+                ctx.violation(format!("C05/composite-write_len-mismatch/{what}"), format!("{what}: write_len() = {wl} but to_bytes() wrote {} bytes", b.len()), replay.clone());
+            }
+            Some(b)
+        }
+        Err(e) => {
+            ctx.violation(format!("C05/composite-not-serialisable/{what}"), e, replay.clone());
+            None
+        }
+    }
+}
 
 pub fn run(ctx: &mut Ctx) {
-    ctx.inconclusive("monitor not built yet");
+    // real key material to be re-dressed by the reference encoder
+    let mut real: Vec<(RefPub, Vec<u8>)> = vec![];
+    let zoo_specs = [
+        Spec::simple(false, Alg::Ed25519Legacy, Some(Alg::EcdhCv25519)),
+        Spec::simple(false, Alg::EcdsaP256, Some(Alg::EcdhP256)),
+        Spec::simple(true, Alg::Ed25519, Some(Alg::X25519)),
+        Spec::simple(true, Alg::Ed448, Some(Alg::X448)),
+        Spec::simple(false, Alg::EcdsaP384, Some(Alg::EcdhP521)),
+        Spec::simple(true, Alg::EcdsaP521, Some(Alg::EcdhP384)),
+        Spec::simple(false, Alg::EcdsaK256, None),
+        Spec::simple(false, Alg::Rsa2048, Some(Alg::Rsa2048)),
+        Spec::simple(false, Alg::Dsa2048, None),
+    ];
+    let zoo_keys: Vec<(String, SignedSecretKey)> = zoo_specs.iter().map(|s| (s.name(), zoo::key(s, 3))).collect();
+    for (_, k) in &zoo_keys {
+        let mut bodies = vec![k.primary_key.to_bytes().unwrap()];
+        for s in &k.secret_subkeys {
+            bodies.push(s.key.to_bytes().unwrap());
+        }
+        for b in bodies {
+            if let Some(rs) = RefSecret::parse(&b) {
+                if let Some(Ok(m)) = rs.unlock(5, b"") {
+                    real.push((rs.public, m));
+                }
+            }
+        }
+    }
+
+    // ---------------------------------------------------------------------------------
+    // Family R: reference-encoded packets of every type
+    let per_type = ctx.qt(1400u64, 20000u64);
+    let forms_canon = [LenForm::NewMin];
+    for kind in 0..6u64 {
+        for i in 0..per_type {
+            if !ctx.mine() {
+                continue;
+            }
+            let mut rng = ctx.rng("R", kind * 1_000_000 + i);
+            let g = match kind {
+                0 => gen_pkesk(&mut rng, i),
+                1 => gen_skesk(&mut rng, i),
+                2 => gen_signature(&mut rng, i),
+                3 => gen_ops(&mut rng, i),
+                4 => gen_key(&mut rng, i, &real),
+                _ => gen_misc(&mut rng, i),
+            };
+            for f in &forms_canon {
+                judge(ctx, &g, f, true);
+            }
+            // alternative framings: old format (minimal length type) for tags < 16, non-minimal new
+            if i % 5 == 0 {
+                let old = if g.body.len() < 256 { LenForm::Old1 } else if g.body.len() < 65536 { LenForm::Old2 } else { LenForm::Old4 };
+                judge(ctx, &g, &old, true);
+                judge(ctx, &g, &LenForm::New5, false);
+                if g.body.len() < 256 {
+                    judge(ctx, &g, &LenForm::Old4, false);
+                }
+            }
+            if i < 3 {
+                ctx.sample(json!({"family": "R", "label": g.label, "tag": g.tag, "body": hexs(&g.body), "canonical": g.canonical}));
+            }
+        }
+    }
+
+    // ---------------------------------------------------------------------------------
+    // Family A: API-built and API-mutated objects
+    for (ki, (name, key)) in zoo_keys.iter().enumerate() {
+        if !ctx.mine() {
+            continue;
+        }
+        describe_case(&format!("api:{name}"));
+        let replay = json!({"family": "A", "key": name});
+        let mut rng = ctx.rng("A", ki as u64);
+        let publ = key.to_public_key();
+        ctx.cover(&("A", name));
+        // composites
+        let b = composite_len(ctx, "SignedSecretKey", key, &replay);
+        composite_len(ctx, "SignedPublicKey", &publ, &replay);
+        composite_len(ctx, "SignedKeyDetails", &key.details, &replay);
+        for u in &key.details.users {
+            composite_len(ctx, "SignedUser", u, &replay);
+        }
+        for s in &publ.public_subkeys {
+            composite_len(ctx, "SignedPublicSubKey", s, &replay);
+        }
+        for s in &key.secret_subkeys {
+            composite_len(ctx, "SignedSecretSubKey", s, &replay);
+        }
+        // every packet of the certificate: packet-level checks
+        if let Some(b) = b {
+            for p in PacketParser::new(&b[..]).flatten() {
+                packet_checks(ctx, &p, None, "api-cert-packet", &replay);
+            }
+            // parse back equal
+            match SignedSecretKey::from_bytes(&b[..]) {
+                Ok(k2) => {
+                    if &k2 != key {
+                        ctx.violation("C05/composite-reparse-differs/SignedSecretKey", name.to_string(), replay.clone());
+                    }
+                }
+                Err(e) => ctx.violation("C05/composite-own-output-rejected/SignedSecretKey", e.to_string(), replay.clone()),
+            }
+        }
+        if let Ok(s) = publ.to_armored_string(ArmorOptions::default()) {
+            match SignedPublicKey::from_string(&s) {
+                Ok((p2, _)) => {
+                    if p2 != publ {
+                        ctx.violation("C05/composite-reparse-differs/SignedPublicKey", name.to_string(), replay.clone());
+                    }
+                }
+                Err(e) => ctx.violation("C05/composite-own-output-rejected/SignedPublicKey", e.to_string(), replay.clone()),
+            }
+        }
+        // lock / unlock mutation: lengths must stay truthful
+        let slow = name.contains("Rsa") || name.contains("Dsa");
+        let s2ks: Vec<S2kParams> = {
+            let iv16 = rnd_bytes(&mut rng, 16);
+            let mut v = vec![S2kParams::Cfb {
+                sym_alg: SymmetricKeyAlgorithm::AES256,
+                s2k: StringToKey::IteratedAndSalted { hash_alg: HashAlgorithm::Sha256, salt: [1; 8], count: 3 },
+                iv: iv16.clone().into(),
+            }];
+            v.push(S2kParams::Aead {
+                sym_alg: SymmetricKeyAlgorithm::AES128,
+                aead_mode: pgp::crypto::aead::AeadAlgorithm::Ocb,
+                s2k: StringToKey::Argon2 { salt: [2; 16], t: 1, p: 1, m_enc: 6 },
+                nonce: rnd_bytes(&mut rng, 15).into(),
+            });
+            v.push(S2kParams::Cfb {
+                sym_alg: SymmetricKeyAlgorithm::CAST5,
+                s2k: StringToKey::Salted { hash_alg: HashAlgorithm::Sha512, salt: [4; 8] },
+                iv: rnd_bytes(&mut rng, 8).into(),
+            });
+            v
+        };
+        for (si, s2k) in s2ks.into_iter().enumerate() {
+            if slow && si > 0 {
+                continue;
+            }
+            let mut k2 = key.clone();
+            let pw = Password::from("pw");
+            if k2.primary_key.set_password_with_s2k(&pw, s2k.clone()).is_err() {
+                continue;
+            }
+            for s in k2.secret_subkeys.iter_mut() {
+                let _ = s.key.set_password_with_s2k(&pw, s2k.clone());
+            }
+            let label = format!("api-locked-{si}");
+            packet_checks(ctx, &Packet::SecretKey(k2.primary_key.clone()), None, &label, &replay);
+            // PacketTrait level
+            {
+                let pk = &k2.primary_key;
+                let mut w = vec![];
+                let _ = pk.to_writer_with_header(&mut w);
+                ctx.eval();
+                if pk.write_len_with_header() != w.len() {
+                    ctx.violation("C05/write_len_with_header-mismatch/locked-secret-key", format!("announced {} written {}", pk.write_len_with_header(), w.len()), replay.clone());
+                }
+            }
+            if let Some(b) = composite_len(ctx, "SignedSecretKey-locked", &k2, &replay) {
+                match SignedSecretKey::from_bytes(&b[..]) {
+                    Ok(k3) => {
+                        // the stored packet header of a mutated key is re-derived on write: compare bytes
+                        if k3.to_bytes().ok().as_deref() != Some(&b[..]) {
+                            ctx.violation("C05/composite-reserialise-differs/locked", name.to_string(), replay.clone());
+                        }
+                    }
+                    Err(e) => ctx.violation("C05/composite-own-output-rejected/locked", e.to_string(), replay.clone()),
+                }
+            }
+            // unlock again
+            let mut k4 = k2.clone();
+            if k4.primary_key.remove_password(&pw).is_ok() {
+                packet_checks(ctx, &Packet::SecretKey(k4.primary_key.clone()), None, "api-unlocked-again", &replay);
+                if k4.primary_key.to_bytes().ok() != key.primary_key.to_bytes().ok() {
+                    ctx.violation("C05/lock-unlock-changes-bytes", name.to_string(), replay.clone());
+                }
+            }
+        }
+        // signature unhashed area mutation
+        if !slow {
+            if let Ok(ds) = DetachedSignature::sign_binary_data(&mut rng, &key.primary_key, &Password::empty(), HashAlgorithm::Sha256, &b"data"[..]) {
+                let mut sig = ds.signature.clone();
+                let extra = [0usize, 1, 150, 190, 200, 16400];
+                for (n, e) in extra.iter().enumerate() {
+                    let sp = Subpacket::regular(SubpacketData::Notation(pgp::packet::Notation { readable: true, name: "n@e".into(), value: vec![b'x'; *e].into() })).unwrap();
+                    let r = if n % 2 == 0 { sig.unhashed_subpacket_push(sp) } else { sig.unhashed_subpacket_insert(0, sp) };
+                    if r.is_err() {
+                        continue;
+                    }
+                    packet_checks(ctx, &Packet::Signature(sig.clone()), None, "api-sig-unhashed-mutated", &replay);
+                    let mut w = vec![];
+                    let _ = sig.to_writer_with_header(&mut w);
+                    ctx.eval();
+                    if sig.write_len_with_header() != w.len() {
+                        ctx.violation("C05/write_len_with_header-mismatch/mutated-signature", format!("announced {} written {}", sig.write_len_with_header(), w.len()), replay.clone());
+                    }
+                }
+                while sig.unhashed_subpacket_remove(0).is_ok() {
+                    packet_checks(ctx, &Packet::Signature(sig.clone()), None, "api-sig-unhashed-removed", &replay);
+                }
+                composite_len(ctx, "DetachedSignature", &ds, &replay);
+            }
+        }
+        // message builder output: every packet re-serialises identically
+        if !slow {
+            let mut b = MessageBuilder::from_bytes("name", vec![7u8; 300]).seipd_v1(&mut rng, SymmetricKeyAlgorithm::AES128);
+            if let Some(sub) = publ.public_subkeys.first() {
+                let _ = b.encrypt_to_key(&mut rng, &sub.key);
+            }
+            let _ = b.encrypt_with_password(StringToKey::new_iterated(&mut rng, HashAlgorithm::Sha256, 2), &"pw".into());
+            if let Ok(bytes) = b.to_vec(&mut rng) {
+                if let Ok(raw) = deframe(&bytes) {
+                    for rp in raw {
+                        let w = &bytes[rp.offset..rp.offset + rp.encoded_len];
+                        if let Some(Ok(p)) = PacketParser::new(w).next() {
+                            packet_checks(ctx, &p, Some((w, rp.partial_chunks.is_empty(), &rp.body)), "api-message-packet", &replay);
+                        }
+                    }
+                }
+            }
+        }
+    }
+
+    // ---------------------------------------------------------------------------------
+    // Family F: fixtures of the repository
+    let mut files = vec![];
+    collect(std::path::Path::new("/repo/tests"), &mut files, 0);
+    files.sort();
+    for f in files.iter() {
+        if !ctx.mine() {
+            continue;
+        }
+        let Ok(data) = std::fs::read(f) else { continue };
+        if data.len() > 400_000 {
+            continue;
+        }
+        describe_case(&format!("fixture:{}", f.display()));
+        let replay = json!({"family": "F", "file": f.display().to_string()});
+        let bin: Vec<u8> = if data.windows(10).take(400).any(|w| w == b"-----BEGIN") {
+            let mut d = pgp::armor::Dearmor::new(std::io::BufReader::new(&data[..]));
+            let mut out = vec![];
+            match ctx.guarded("C05/F/dearmor", || replay.clone(), || d.read_to_end(&mut out).is_ok()) {
+                Some(true) => out,
+                _ => continue,
+            }
+        } else {
+            data
+        };
+        let Ok(raw) = deframe(&bin) else { continue };
+        for rp in raw.iter().take(60) {
+            if rp.indeterminate || !rp.partial_chunks.is_empty() {
+                continue;
+            }
+            let w = &bin[rp.offset..rp.offset + rp.encoded_len];
+            let parsed = ctx.guarded("C05/F/parse", || replay.clone(), || PacketParser::new(w).next());
+            if let Some(Some(Ok(p))) = parsed {
+                ctx.cover(&("F", f, rp.offset));
+                // fixtures are not known to be canonical: value round trip only
+                packet_checks(ctx, &p, Some((w, false, &rp.body)), "fixture", &json!({"base": replay, "offset": rp.offset}));
+            }
+        }
+    }
+}
+
+fn collect(dir: &std::path::Path, out: &mut Vec<std::path::PathBuf>, depth: usize) {
+    if depth > 6 || out.len() > 1200 {
+        return;
+    }
+    let Ok(rd) = std::fs::read_dir(dir) else { return };
+    let mut entries: Vec<_> = rd.flatten().map(|e| e.path()).collect();
+    entries.sort();
+    for p in entries {
+        if p.is_dir() {
+            collect(&p, out, depth + 1);
+        } else if let Some(ext) = p.extension().and_then(|e| e.to_str()) {
+            if matches!(ext, "asc" | "key" | "pub" | "sec" | "gpg" | "pgp" | "cert" | "tsk" | "msg" | "sig") {
+                out.push(p);
+            }
+        }
+    }
 }
